@@ -218,9 +218,11 @@ class TdmsSegment(object):
             num_values = Uint64(len(obj.data))
 
             data_index = [Uint32(20), data_type, dimension, num_values]
-            # For strings, we also need to write the total data size in bytes
+            # For strings, we also need to write the total data size in bytes,
+            # which makes the raw data index 8 bytes longer
             if obj.data_type == String:
                 total_size = object_data_size(obj.data_type, obj.data)
+                data_index[0] = Uint32(28)
                 data_index.append(Uint64(total_size))
 
             return data_index
